@@ -293,6 +293,8 @@ enum EffKind {
     /// a dependent that PEEKS: polls `by_ref()` / `.await` once with `now_or_never()` and drops the future
     DP,
     DQ,
+    /// no task-based subscriber, but a SYNCHRONOUS observer (ImmediateEffect reading `.get()`)
+    Imm,
 }
 
 #[derive(Clone)]
@@ -698,7 +700,7 @@ impl Live {
             Dv::new(kind, init, fetcher(self.sh.clone(), self.srcs.clone(), via))
         };
         self.fx = fx;
-        if eff != EffKind::None {
+        if eff != EffKind::None && eff != EffKind::Imm {
             let memo = {
                 let srcs = self.srcs.clone();
                 ArcMemo::new(move |_| {
@@ -722,12 +724,12 @@ impl Live {
                         let a = d.get();
                         (a, Some(b))
                     }
-                    EffKind::None => unreachable!(),
+                    EffKind::None | EffKind::Imm => unreachable!(),
                 };
                 sh.lock().unwrap().elog.push(rec);
             });
         }
-        if kind.is_once() {
+        if kind.is_once() || eff == EffKind::Imm {
             // a synchronous observer: it runs INSIDE the notification of the completion; what it reads there must be
             // the loaded value (it is never told again)
             let d = dv.clone();
@@ -753,6 +755,7 @@ impl Live {
             EffKind::MD => "effect-md",
             EffKind::DP => "effect-peeks-by-ref",
             EffKind::DQ => "effect-peeks-await",
+            EffKind::Imm => "no-effect",
         });
     }
 
@@ -921,7 +924,7 @@ impl Live {
             "fail awaiter-parked"
         } else if g.imm_last.is_some() && g.imm_last != Some(val) {
             "fail sync-observer-stale"
-        } else if self.eff != EffKind::None && g.elog.last().map(|r| r.0) != Some(val) {
+        } else if !matches!(self.eff, EffKind::None | EffKind::Imm) && g.elog.last().map(|r| r.0) != Some(val) {
             "fail subscriber-stale"
         } else {
             "ok"
@@ -1006,6 +1009,7 @@ impl Live {
                 "md" => EffKind::MD,
                 "dp" => EffKind::DP,
                 "dq" => EffKind::DQ,
+                "i" => EffKind::Imm,
                 _ => return BAD.into(),
             };
             // a peeking dependent sees `None` while loading even if an older value is there: driven on first loads only
@@ -1054,6 +1058,13 @@ impl Live {
             && self.fx.as_ref().map(|f| f.post.is_empty()).unwrap_or(true)
             && !self.used_mset;
         if matches!(self.eff, EffKind::DP | EffKind::DQ) && matches!(w.as_slice(), ["set", ..] | ["refetch"] | ["mset", ..]) {
+            return BAD.into();
+        }
+        // with a synchronous observer: no manual writes, guards or pauses (it reads the value synchronously inside
+        // every notification)
+        if self.eff == EffKind::Imm
+            && matches!(w.as_slice(), ["mset", ..] | ["attach", "h"] | ["hold"] | ["pause"] | ["resume"])
+        {
             return BAD.into();
         }
         // pausing the derived's owner: plain configurations only
@@ -1308,14 +1319,62 @@ impl Drop for Live {
     }
 }
 
+/// what the watchdog needs to finish the output when the (single) harness thread blocks for good inside an op
+struct Progress {
+    /// index of the op line being applied, when it was started
+    line: usize,
+    since: std::time::Instant,
+    case_line: Option<String>,
+    outs: Vec<String>,
+    done: bool,
+}
+
 fn run(ops_path: &str, out_path: &str) -> std::io::Result<()> {
     let text = std::fs::read_to_string(ops_path)?;
-    let mut out = std::io::BufWriter::new(std::fs::File::create(out_path)?);
+    let lines: Arc<Vec<String>> = Arc::new(text.lines().map(|l| l.trim().to_string()).collect());
+    let out = Arc::new(Mutex::new(std::io::BufWriter::new(std::fs::File::create(out_path)?)));
+    let prog = Arc::new(Mutex::new(Progress { line: 0, since: std::time::Instant::now(), case_line: None, outs: vec![], done: false }));
+    // WATCHDOG: an op normally takes microseconds.  If one does not return for 10 s the thread is blocked for good (a
+    // synchronous reader inside a notification that holds a lock, ...): the op gets the verdict `fail …-deadlock`, the
+    // rest of the file is filled in and the process ends, so that the check reports a violation instead of hanging.
+    {
+        let (lines, out, prog) = (lines.clone(), out.clone(), prog.clone());
+        std::thread::spawn(move || loop {
+            std::thread::sleep(std::time::Duration::from_millis(250));
+            let p = prog.lock().unwrap();
+            if p.done {
+                return;
+            }
+            if p.since.elapsed() > std::time::Duration::from_secs(10) {
+                let mut o = out.lock().unwrap();
+                if let Some(c) = &p.case_line {
+                    let _ = writeln!(o, "{c} tags=deadlock");
+                }
+                for l in &p.outs {
+                    let _ = writeln!(o, "{l}");
+                }
+                let _ = writeln!(o, "blocked ## fail sync-observer-deadlock");
+                for l in lines.iter().skip(p.line + 1) {
+                    if l.starts_with("case ") {
+                        let _ = writeln!(o, "{l} tags=");
+                    } else {
+                        let _ = writeln!(o, "dead");
+                    }
+                }
+                let _ = o.flush();
+                std::process::exit(0);
+            }
+        });
+    }
     let mut cur: Option<(String, Live, Vec<String>)> = None;
-    fn flush(out: &mut impl std::io::Write, cur: &mut Option<(String, Live, Vec<String>)>) -> std::io::Result<()> {
+    fn flush(
+        out: &Arc<Mutex<std::io::BufWriter<std::fs::File>>>,
+        cur: &mut Option<(String, Live, Vec<String>)>,
+    ) -> std::io::Result<()> {
         if let Some((case_line, mut live, outs)) = cur.take() {
             let tags = live.tags();
             live.teardown();
+            let mut out = out.lock().unwrap();
             writeln!(out, "{} tags={}", case_line, tags.join(","))?;
             for o in outs {
                 writeln!(out, "{o}")?;
@@ -1323,12 +1382,20 @@ fn run(ops_path: &str, out_path: &str) -> std::io::Result<()> {
         }
         Ok(())
     }
-    for line in text.lines() {
-        let line = line.trim();
+    for (idx, line) in lines.iter().enumerate() {
+        let line = line.as_str();
         let w: Vec<&str> = line.split_whitespace().collect();
+        {
+            let mut p = prog.lock().unwrap();
+            p.line = idx;
+            p.since = std::time::Instant::now();
+        }
         if let ["case", n] = w.as_slice() {
-            flush(&mut out, &mut cur)?;
+            flush(&out, &mut cur)?;
             cur = Some((format!("case {n}"), Live::new(), vec![]));
+            let mut p = prog.lock().unwrap();
+            p.case_line = Some(format!("case {n}"));
+            p.outs.clear();
             continue;
         }
         match cur.as_mut() {
@@ -1337,13 +1404,16 @@ fn run(ops_path: &str, out_path: &str) -> std::io::Result<()> {
                     Ok(o) => o,
                     Err(_) => "panic ## fail panic".to_string(),
                 };
+                prog.lock().unwrap().outs.push(o.clone());
                 outs.push(o);
             }
-            None => writeln!(out, "bad-op")?,
+            None => writeln!(out.lock().unwrap(), "bad-op")?,
         }
     }
-    flush(&mut out, &mut cur)?;
-    out.flush()
+    flush(&out, &mut cur)?;
+    prog.lock().unwrap().done = true;
+    let r = out.lock().unwrap().flush();
+    r
 }
 
 // ------------------------------------------------------------------ generator
@@ -1667,6 +1737,43 @@ fn gen_pause(g: &mut Gen, thorough: bool) {
     }
 }
 
+/// a SYNCHRONOUS observer (cfg effect kind `i`: an `ImmediateEffect` reading `.get()`) on every AsyncDerived-based
+/// flavour: it runs inside the notification of every completion; what it saw at its last run must be the loaded value
+/// (a run that never returns is caught by the watchdog: `fail sync-observer-deadlock`)
+fn gen_sync_observer(g: &mut Gen, thorough: bool) {
+    let mut cfgs: Vec<String> = ["arc", "arena", "arc-unsync", "arena-unsync", "res", "res-arc", "res-blocking", "local", "local-arc", "arena~a", "res~ar"]
+        .iter()
+        .map(|k| format!("cfg {k} 0 - i"))
+        .collect();
+    cfgs.push("cfg arena 0 - i memo".into());
+    cfgs.push("cfg arc 0 7 i".into());
+    let alphabet = ["set", "refetch", "complete last", "attach", "poll 0", "poll 1", "idle"];
+    for len in 1..=(if thorough { 4 } else { 3 }) {
+        gen_exhaustive_cfgs(g, len, &alphabet, &cfgs, &format!("so{len}-"));
+    }
+    let loaded: Vec<String> = cfgs.iter().map(|c| format!("{c};idle;complete last;idle")).collect();
+    let n = alphabet.len();
+    for cfgpre in &loaded {
+        for code in 0..n.pow(3) {
+            let mut c = code;
+            let mut l: Vec<String> = cfgpre.split(';').map(|s| s.to_string()).collect();
+            let mut next_val = 1;
+            for _ in 0..3 {
+                let a = alphabet[c % n];
+                c /= n;
+                if a == "set" {
+                    l.push(format!("set 0 {next_val}"));
+                    next_val += 1;
+                } else {
+                    l.push(a.to_string());
+                }
+            }
+            settle(&mut l, 3);
+            g.case("sol-", &l);
+        }
+    }
+}
+
 /// dependents that PEEK at the value (`by_ref()` / `.await` polled once with `now_or_never()` and dropped) during a
 /// first load: they must run again when the load has finished
 fn gen_peek(g: &mut Gen, thorough: bool) {
@@ -1962,6 +2069,7 @@ fn generate(seed: u64, n: usize, path: &str, tier: &str) -> std::io::Result<()> 
     gen_conversions(&mut g, thorough);
     gen_pause(&mut g, thorough);
     gen_peek(&mut g, thorough);
+    gen_sync_observer(&mut g, thorough);
     if thorough {
         gen_exhaustive(&mut g, 4, &alphabet, &EFFS, "x4-");
         gen_exhaustive(&mut g, 5, &core, &EFFS, "y5-");
